@@ -26,6 +26,7 @@ import (
 	"encoding/json"
 	"flag"
 	"fmt"
+	"math"
 	"os"
 	"runtime/debug"
 	"sort"
@@ -597,7 +598,22 @@ type genState struct {
 	live map[int]bool
 }
 
-func (g *genState) next() int { g.val++; return g.val }
+// next: mostly fresh positive values (a stale value is recognisable); sometimes the zero value, a
+// negative, a repeat of the latest fresh value or an extreme int
+func (g *genState) next() int {
+	switch p := g.r.Intn(100); {
+	case p < 8:
+		return 0
+	case p < 11:
+		return -g.r.Range(1, 9)
+	case p < 14:
+		return g.val
+	case p < 15:
+		return vlib.Pick(g.r, []int{math.MaxInt, math.MinInt})
+	}
+	g.val++
+	return g.val
+}
 
 func (g *genState) putLine(container string, k int) {
 	if container == "set" {
@@ -676,6 +692,21 @@ func gen(tier string, out *vlib.Out) {
 		"new builtin id 0\nput 1 1\nput 1 2\nput 2 3\nget 1\nget 3\ndelete 3\ndelete 1\nlen\nkeys\nvalues\ndelete 1",
 		"new set id 0\nadd 1\nadd 1\nadd 2\nexist 1\nexist 3\ndelete 3\ndelete 1\nkeys\nexist 1\nadd 1\nkeys",
 		"new hash perfect 0\nget 1\ndelete 1\nlen\nkeys\nvalues",
+		// key 0 (for `perfect` the zero value of the key type, what a pooled node holds) with non-zero values
+		"new hash perfect 0\nget 0\nput 0 5\nget 0\nlen\nkeys\nvalues\nput 0 6\nget 0\ndelete 0\nget 0\nlen\ndelete 0\nput 1 7\nput 0 8\nkeys\nget 0\nget 1",
+		"new hash mod2 0\nput 2 1\nput 0 2\nput 4 3\nget 0\ndelete 2\nget 0\nkeys\ndelete 0\nget 0\nget 4\nput 0 4\nkeys\nvalues\nlen",
+		"new hash half 0\nput 1 1\nget 0\nput 0 2\nkeys\nvalues\ndelete 0\nget 1\nlen",
+		"new linked perfect 0\nput 0 5\nput 1 6\nput 0 7\nkeys\nvalues\nget 0\ndelete 0\nkeys\nput 0 8\nkeys\nlen",
+		"new multi perfect 0\nput 0 1\nput 0 2\nget 0\nput 1 0\nput 1 0,0\nget 1\nkeys\nvalues\ndelete 0\nget 0\nlen",
+		"new multib id 0\nput 0 1\nput 0 0\nget 0\nput -1 0\nget -1\nkeys\ndelete 0\nget 0\nlen",
+		"new builtin id 0\nget 0\nput 0 5\nget 0\nput -1 6\nlen\nkeys\nvalues\ndelete 0\nget 0\nget -1\nlen",
+		"new set id 0\nexist 0\nadd 0\nexist 0\nkeys\nadd 1\nadd -1\nadd 0\nkeys\ndelete 0\nexist 0\nkeys\nadd 0\nkeys",
+		// zero, negative, extreme and repeated VALUES under non-zero keys: a stored zero is found, not "absent"
+		"new hash perfect 0\nput 1 0\nget 1\nlen\nvalues\nput 2 0\nput 3 -4\nvalues\nput 1 9\nput 1 0\nget 1\ndelete 1\nget 1\ndelete 2\nlen\nput 4 9223372036854775807\nput 5 -9223372036854775808\nget 4\nget 5\nvalues",
+		"new hash const 0\nput 1 0\nput 2 0\nput 3 7\nput 4 7\nget 2\nvalues\ndelete 2\ndelete 1\nget 3\nput 5 0\nkeys\nvalues",
+		"new linked mod2 0\nput 1 0\nput 2 0\nput 3 5\nget 1\nvalues\nput 3 0\nvalues\ndelete 1\nget 1\nvalues\nlen",
+		"new builtin id 0\nput 1 0\nget 1\nlen\nvalues\ndelete 1\nget 1\nput 2 -3\nput 3 -3\nvalues",
+		"new hash const 0\nput -1 1\nput 0 2\nput 1 3\nget -1\ndelete 0\nkeys\nvalues\nget -1\nlen",
 	}
 	for _, c := range corpus {
 		for _, l := range strings.Split(c, "\n") {
@@ -693,7 +724,17 @@ func gen(tier string, out *vlib.Out) {
 		size := vlib.Pick(r, []int{0, 0, 1, 8, 64})
 		out.Line("new %s %s %d", container, kk, size)
 		g.live = map[int]bool{}
-		key := func() int { return r.Range(1, universe) }
+		// negative IDs only where no Code() is taken of them (uint64 wrap-around; the model's codes are Int)
+		negOK := kk == "id" || kk == "const"
+		key := func() int {
+			switch p := r.Intn(100); {
+			case p < 7:
+				return 0
+			case p < 11 && negOK:
+				return -r.Range(1, 3)
+			}
+			return r.Range(1, universe)
+		}
 		phases := []string{"fill", "churn", "drain", "refill", "churn"}
 		switch {
 		case r.Chance(25):
